@@ -226,6 +226,48 @@ def IsCompare (A B : Nat → Bool) (r : Int) : Prop :=
   (r = 1 ∧ ((∃ n, A n = true ∧ B n = false ∧ ∀ m, n < m → A m = B m) ∨
              (∃ N, ∀ m, N ≤ m → A m = true ∧ B m = false)))
 
+theorem IsCompare.unique {A B : Nat → Bool} {r r' : Int} (h : IsCompare A B r) (h' : IsCompare A B r') : r = r' := by
+  -- the three alternatives are mutually exclusive
+  have excl0 : (∀ n, A n = B n) →
+      ((∃ n, B n = true ∧ A n = false ∧ ∀ m, n < m → A m = B m) ∨ (∃ N, ∀ m, N ≤ m → B m = true ∧ A m = false)) → False := by
+    intro h0 h1
+    rcases h1 with ⟨n, hb, ha, _⟩ | ⟨N, hN⟩
+    · rw [h0 n, hb] at ha; cases ha
+    · have := hN N (Nat.le_refl _); rw [h0 N, this.1] at this; cases this.2
+  have excl0' : (∀ n, A n = B n) →
+      ((∃ n, A n = true ∧ B n = false ∧ ∀ m, n < m → A m = B m) ∨ (∃ N, ∀ m, N ≤ m → A m = true ∧ B m = false)) → False := by
+    intro h0 h1
+    rcases h1 with ⟨n, ha, hb, _⟩ | ⟨N, hN⟩
+    · rw [← h0 n, ha] at hb; cases hb
+    · have := hN N (Nat.le_refl _); rw [← h0 N, this.1] at this; cases this.2
+  have excl1 : ((∃ n, B n = true ∧ A n = false ∧ ∀ m, n < m → A m = B m) ∨ (∃ N, ∀ m, N ≤ m → B m = true ∧ A m = false)) →
+      ((∃ n, A n = true ∧ B n = false ∧ ∀ m, n < m → A m = B m) ∨ (∃ N, ∀ m, N ≤ m → A m = true ∧ B m = false)) → False := by
+    intro h1 h2
+    rcases h1 with ⟨n1, hb1, ha1, ab1⟩ | ⟨N1, hN1⟩ <;> rcases h2 with ⟨n2, ha2, hb2, ab2⟩ | ⟨N2, hN2⟩
+    · rcases Nat.lt_trichotomy n1 n2 with hlt | heq | hgt
+      · have := ab1 n2 hlt; rw [ha2, hb2] at this; cases this
+      · subst heq; rw [ha1] at ha2; cases ha2
+      · have := ab2 n1 hgt; rw [ha1, hb1] at this; cases this
+    · have h3 := hN2 (max N2 (n1 + 1)) (Nat.le_max_left _ _)
+      have := ab1 (max N2 (n1 + 1)) (by omega)
+      rw [h3.1, h3.2] at this; cases this
+    · have h3 := hN1 (max N1 (n2 + 1)) (Nat.le_max_left _ _)
+      have := ab2 (max N1 (n2 + 1)) (by omega)
+      rw [h3.1, h3.2] at this; cases this
+    · have h3 := hN1 (max N1 N2) (Nat.le_max_left _ _)
+      have h4 := hN2 (max N1 N2) (Nat.le_max_right _ _)
+      rw [h3.1] at h4; cases h4.2
+  rcases h with ⟨e, h0⟩ | ⟨e, h1⟩ | ⟨e, h2⟩ <;> rcases h' with ⟨e', h0'⟩ | ⟨e', h1'⟩ | ⟨e', h2'⟩
+  · rw [e, e']
+  · exact (excl0 h0 h1').elim
+  · exact (excl0' h0 h2').elim
+  · exact (excl0 h0' h1).elim
+  · rw [e, e']
+  · exact (excl1 h1 h2').elim
+  · exact (excl0' h0' h2).elim
+  · exact (excl1 h1' h2).elim
+  · rw [e, e']
+
 theorem compare_spec (a b : Bitmap) : IsCompare a.mem b.mem (a.compare b) := by
   unfold compare
   split
